@@ -631,6 +631,8 @@ def c10(ctx):
         n += 1
         NL.accessor_laws(ctx, db, e)
         R.r_count(ctx, db, e, "B")
+        # the sample may have been assembled from merged parts: merging one more observation is adding it (L2), in either order (L3)
+        R.laws_add_merge(ctx, db, e, ("L2", "L3"))
         NL.moments_sample_laws(ctx, db, e)
         scen = N.est_scenarios(ctx, db, e, only=("sample_variance", "sample_skewness", "sample_excess_kurtosis"), nmin_generic=4,
                                accessor_args={"central_moment": [(2,), (3,), (4,)]})
